@@ -630,3 +630,52 @@ Proof.
       symmetry. apply (Z.mod_unique _ _ (n / 2 + 1)); lia.
     + split; [nia|]. intros [X|X]; nia.
 Qed.
+
+(* fill_value=None (documented opt-out: raw data, gaps not blanked): same slots, and every slot that
+   holds a valid value is reported with that value; nothing is claimed about the other positions *)
+Definition raw_agrees (a : spec) (cover : list Z) (w : list cell) : Prop :=
+  length w = length cover /\
+  forall i j v, nth_error cover i = Some j -> s_map a j = Some v -> nth i w None = Some v.
+
+Lemma window_slots_raw : forall b a s e, Inv b a ->
+  exists w, window_slots b s e None = RList w /\ raw_agrees a (spec_cover (cap b) a s e) w.
+Proof.
+  intros b a s e HI. destruct (observers_inv _ _ HI) as (_ & Ho & Hn & _).
+  unfold window_slots, spec_cover. rewrite Ho, Hn. unfold spec_newest.
+  destruct (spec_oldest (cap b) a) as [o|] eqn:Eo.
+  2:{ exists []. split; [reflexivity|]. split; [reflexivity|]. intros i j v H. destruct i; discriminate. }
+  destruct (newest b) as [n|] eqn:En.
+  2:{ destruct (count_valid_empty _ _ HI En) as (_ & _ & H3). congruence. }
+  pose proof (inv_facts _ _ _ HI En) as F. rewrite (f_snew _ _ _ F).
+  pose proof (f_c _ _ _ F) as Hc. destruct (spec_oldest_range _ _ _ _ F Eo) as [Hr _].
+  set (s' := Z.max s o). set (e' := Z.min e (n + 1)).
+  destruct (s' >=? e') eqn:Ege.
+  - exists []. split; [reflexivity|]. replace (Z.to_nat (e' - s')) with 0%nat by lia.
+    split; [reflexivity|]. intros i j v H. destruct i; discriminate.
+  - rewrite (to_idx_in b n s' En) by lia. rewrite (to_idx_in b n e' En) by lia.
+    eexists. split; [reflexivity|].
+    set (L := e' - s'). replace e' with (s' + L) by lia.
+    assert (HL : 0 < L <= cap b) by lia.
+    assert (Hcap : cap b = Z.of_nat (length (cells b))) by reflexivity.
+    split.
+    + rewrite length_zrange. destruct (Z.to_nat L) eqn:EL; [lia|].
+      destruct (wrapped_nth (cells b) (cap b) s' L 0%nat Hcap HL ltac:(lia)) as [Lw _]. lia.
+    + intros i j v Hi Hv.
+      assert (Hlt : (i < Z.to_nat L)%nat).
+      { rewrite <- (length_zrange (Z.to_nat L) s'). apply nth_error_Some. congruence. }
+      assert (Hj : j = s' + Z.of_nat i).
+      { rewrite <- (nth_zrange (Z.to_nat L) s' i 0 Hlt). symmetry. apply nth_error_nth. exact Hi. }
+      destruct (wrapped_nth (cells b) (cap b) s' L i Hcap HL Hlt) as [_ Nw]. rewrite Nw, <- Hj.
+      rewrite (f_map _ _ _ F j) in Hv by lia.
+      destruct (is_missing (gaps b) j); [discriminate|exact Hv].
+Qed.
+
+Lemma window_ts_raw : forall p al b a s e, Inv b a ->
+  exists w, window_ts p al b s e None = RList w /\
+            raw_agrees a (spec_cover (cap b) a (norm_slot p al s) (norm_slot p al e)) w.
+Proof.
+  intros p al b a s e HI. unfold window_ts. destruct (count_covered b =? 0) eqn:E.
+  - exists []. split; [reflexivity|]. unfold spec_cover. rewrite (covered_zero _ _ HI) by lia.
+    split; [reflexivity|]. intros i j v H. destruct i; discriminate.
+  - apply window_slots_raw. exact HI.
+Qed.
